@@ -46,6 +46,7 @@ type shardOutcome struct {
 	races  []raceReport
 	crash  int
 	stall  int
+	aborts int
 	incon  map[string]string
 	broken []string
 }
@@ -401,6 +402,16 @@ func runShard(p *Prop, ph *Phase, tier string, seed int64, bindir, work string, 
 		if (code == 0 || code == 66) && res.Done {
 			// 66 is the race detector's exit status when it reported races (GORACE halt_on_error=0); the reports are parsed from its log
 			return o
+		}
+		if code == 5 && lastB >= 0 {
+			// the case asked for a fresh worker (AbortWorker); what it found is already on disk
+			o.aborts++
+			start = lastB + 1
+			if o.aborts > 200 {
+				o.incon["aborts"] = fmt.Sprintf("worker %d of phase %s was restarted by its cases more than 200 times", k, ph.Name)
+				return o
+			}
+			continue
 		}
 		if code == 3 && lastS >= 0 {
 			o.stall++
